@@ -1,25 +1,35 @@
 ----------------------------- MODULE LimitsSessUQ -----------------------------
 (* Design model of the upload queue of one peer (internal/peerconn/peerwriter: Run loop + messageWriter).        *)
-(*   q     piece messages waiting in writeQueue (= currentQueuedRequests)                                         *)
-(*   hand  the writer goroutine holds a message it took from writeC (waiting for the bucket / the socket)         *)
-(* A flood of requests arrives (Req); TLC checks q <= cap always and the bound the trace spec uses:               *)
-(* accepted <= cap + 1 + written, where written = pieces that left the writer while the flood was processed.      *)
+(*   q     the counter currentQueuedRequests                                                                      *)
+(*   qp    piece messages really waiting in writeQueue;  qr  reject messages waiting in writeQueue                *)
+(*   hand  the writer goroutine holds a piece it took from writeC (waiting for the bucket / the socket)           *)
+(* Requests arrive (Req), are cancelled (Cancel), the peer is choked (Choke: queued pieces are dropped).          *)
+(* TLC checks  0 <= q = qp <= cap  always and the bound the trace spec uses:                                      *)
+(*   pieces written or still to be written <= cap + 1 + written   (accepted - cancelled <= ...)                   *)
+(* STRICT = FALSE models  >=  ->  >  in queueMessage;  CANCELREJ = TRUE models a cancelRequest that also matches  *)
+(* a queued reject and decrements the counter for it.                                                             *)
 EXTENDS LimitsSess
-CONSTANTS CAP, N, STRICT      \* STRICT = FALSE models the mutation  >=  ->  >  in queueMessage
-VARIABLES q, hand, sent, acc, rej, written
-vars == <<q, hand, sent, acc, rej, written>>
+CONSTANTS CAP, N, STRICT, CANCELREJ, FAST
+VARIABLES q, qp, qr, hand, sent, acc, rej, written, gone
+vars == <<q, qp, qr, hand, sent, acc, rej, written, gone>>
 
-Init == q = 0 /\ hand = 0 /\ sent = 0 /\ acc = 0 /\ rej = 0 /\ written = 0
+Init == q = 0 /\ qp = 0 /\ qr = 0 /\ hand = 0 /\ sent = 0 /\ acc = 0 /\ rej = 0 /\ written = 0 /\ gone = 0
 Full == IF STRICT THEN q >= CAP ELSE q > CAP
 Req == /\ sent < N /\ sent' = sent + 1
-       /\ IF Full THEN rej' = rej + 1 /\ UNCHANGED <<q, acc>> ELSE q' = q + 1 /\ acc' = acc + 1 /\ UNCHANGED rej
-       /\ UNCHANGED <<hand, written>>
-Take == q > 0 /\ hand = 0 /\ q' = q - 1 /\ hand' = 1 /\ UNCHANGED <<sent, acc, rej, written>>
-Write == hand = 1 /\ hand' = 0 /\ written' = written + 1 /\ UNCHANGED <<q, sent, acc, rej>>
-Next == Req \/ Take \/ Write
+       /\ IF Full THEN rej' = rej + 1 /\ qr' = (IF FAST THEN qr + 1 ELSE qr) /\ UNCHANGED <<q, qp, acc>>
+                  ELSE q' = q + 1 /\ qp' = qp + 1 /\ acc' = acc + 1 /\ UNCHANGED <<rej, qr>>
+       /\ UNCHANGED <<hand, written, gone>>
+TakePiece == qp > 0 /\ hand = 0 /\ qp' = qp - 1 /\ q' = q - 1 /\ hand' = 1 /\ UNCHANGED <<qr, sent, acc, rej, written, gone>>
+TakeReject == qr > 0 /\ hand = 0 /\ qr' = qr - 1 /\ UNCHANGED <<q, qp, hand, sent, acc, rej, written, gone>>
+Write == hand = 1 /\ hand' = 0 /\ written' = written + 1 /\ UNCHANGED <<q, qp, qr, sent, acc, rej, gone>>
+CancelPiece == qp > 0 /\ qp' = qp - 1 /\ q' = q - 1 /\ gone' = gone + 1 /\ UNCHANGED <<qr, hand, sent, acc, rej, written>>
+CancelReject == CANCELREJ /\ qr > 0 /\ qr' = qr - 1 /\ q' = q - 1 /\ UNCHANGED <<qp, hand, sent, acc, rej, written, gone>>
+Choke == q' = q - qp /\ gone' = gone + qp /\ qp' = 0 /\ UNCHANGED <<qr, hand, sent, acc, rej, written>>
+Next == Req \/ TakePiece \/ TakeReject \/ Write \/ CancelPiece \/ CancelReject \/ Choke
 Spec == Init /\ [][Next]_vars
 
-QueueBound == q <= CAP                                   \* @obligation C17.uploadq
-FloodBound == acc <= UploadQBound(CAP, written)          \* what the scripted leecher can check
+QueueBound == 0 <= q /\ q = qp /\ qp <= CAP                   \* @obligation C17.uploadq
+\* what the scripted leecher can check: pieces it will ever get (accepted and not dropped by a cancel / choke)
+FloodBound == acc - gone <= UploadQBound(CAP, written)
 Answered == acc + rej = sent
 =============================================================================
